@@ -478,7 +478,9 @@ func doFormat(w io.Writer, obj Object, opt OutputOptions, needSep bool) (bool, e
 		// method 1: If the value is already known, we can just write it to the
 		// file.
 		if x.value != nil {
-			_, err := w.Write(x.value)
+			// (formatted again rather than copied: in an encrypted file the
+			// strings of the value depend on the object they are written into)
+			_, err := doFormat(w, x.val, 0, false)
 			return true, err
 		}
 
@@ -488,6 +490,7 @@ func doFormat(w io.Writer, obj Object, opt OutputOptions, needSep bool) (bool, e
 		// file (and not, for example, into the body of an object stream).
 		if _, ok := x.pdf.origW.(io.WriteSeeker); ok && w == io.Writer(x.pdf.w) {
 			x.pos = append(x.pos, x.pdf.w.pos)
+			x.posRef = append(x.posRef, x.pdf.w.ref)
 			_, err := w.Write(bytes.Repeat([]byte{' '}, x.size))
 			return true, err
 		}
@@ -1141,11 +1144,17 @@ func IsDirect(obj Object) bool {
 // content in a PDF stream dictionary.  To create Placeholder objects,
 // use the [Writer.NewPlaceholder] method.
 type Placeholder struct {
-	value []byte
+	value []byte // the formatted value (without encryption), once it is known
+	val   Native
 	size  int
 
 	pdf *Writer
 	pos []int64
+
+	// posRef[i] is the object which contains the blanks at pos[i]: in an
+	// encrypted file the strings of the value are encrypted with its key.
+	posRef []Reference
+
 	ref Reference
 }
 
@@ -1179,6 +1188,12 @@ func (x *Placeholder) Set(val Native) error {
 			return fmt.Errorf("Placeholder.Set: %w", err)
 		}
 		if len(x.pos) == 0 {
+			// later uses of the placeholder write the value itself
+			buf := &bytes.Buffer{}
+			if _, err := doFormat(buf, val, 0, false); err == nil && x.value == nil {
+				x.value = bytes.Clone(buf.Bytes())
+				x.val = val
+			}
 			return nil
 		}
 		// The placeholder has also been written as blanks into the file
@@ -1198,8 +1213,28 @@ func (x *Placeholder) Set(val Native) error {
 	} else if buf.Len() > x.size {
 		return errors.New("Placeholder: replacement text too long")
 	}
-	x.value = make([]byte, buf.Len())
-	copy(x.value, buf.Bytes())
+
+	// The text for every place where blanks have been written.  In an
+	// encrypted file the value is formatted the way the file formats it:
+	// its strings are encrypted with the key of the object which contains the
+	// blanks.
+	fills := make([][]byte, len(x.pos))
+	for i := range x.pos {
+		fills[i] = buf.Bytes()
+		if enc := x.pdf.w.enc; enc != nil {
+			fb := &bytes.Buffer{}
+			_, err := doFormat(&posWriter{w: bufferFlusher{fb}, ref: x.posRef[i], enc: enc}, val, 0, false)
+			if err != nil {
+				return fmt.Errorf("Placeholder.Set: %w", err)
+			} else if fb.Len() > x.size {
+				return errors.New("Placeholder: replacement text too long")
+			}
+			fills[i] = fb.Bytes()
+		}
+	}
+
+	x.value = bytes.Clone(buf.Bytes())
+	x.val = val
 
 	if len(x.pos) == 0 {
 		return nil
@@ -1212,12 +1247,12 @@ func (x *Placeholder) Set(val Native) error {
 	if err != nil {
 		return err
 	}
-	for _, pos := range x.pos {
+	for i, pos := range x.pos {
 		_, err = fill.Seek(pos, io.SeekStart)
 		if err != nil {
 			return err
 		}
-		_, err = fill.Write(x.value)
+		_, err = fill.Write(fills[i])
 		if err != nil {
 			return err
 		}
@@ -1228,8 +1263,14 @@ func (x *Placeholder) Set(val Native) error {
 	}
 
 	x.pos = nil
+	x.posRef = nil
 	return nil
 }
+
+// bufferFlusher makes a bytes.Buffer the target of a posWriter.
+type bufferFlusher struct{ *bytes.Buffer }
+
+func (bufferFlusher) Flush() error { return nil }
 
 // AsString formats a PDF object as a string, in the same way as the
 // it would be written to a PDF file.
